@@ -1,5 +1,298 @@
-import Luqum.Model.Es
+/-
+  C05 — A query is either refused or translated into an equivalent Elasticsearch query, in boolean
+  meaning and in nested meaning.
+
+  SEMANTICS (definitions in `Luqum.Lemmas.EsSem`, re-exported here).
+  * Documents (`Obj`): finite trees of nested objects, each labelled by the nested path it
+    instantiates, as a list of names (the root: `[]`). `DocWF cfg doc`: the path of a child properly
+    extends the path of its parent and no declared nested container (`cfg.nestedPrefixes`, split at
+    the dots) lies strictly between the two — i.e. an object at `a.b` sits inside an object at `a`
+    whenever `a` is a declared container. (Satisfiable: `doc0` below; a document without nested
+    objects `.mk [] []` always is.)
+  * `evalJ truth j o`: meaning of the JSON the builder returns, at the object `o`:
+    `{"bool": {"must", "should", "must_not"}}`: all must, no must_not, and — when must is empty and
+    should is not — some should; `{"nested": {"path": p, "query": q}}`: `q` at the nested path `p`
+    (`atPath`: at `o` itself when it instantiates `p`, else at some descendant of `o` that does); any
+    other clause is an atom whose truth is `truth o clause`.
+  * `denote cfg atom an fp t o`: meaning of the luqum tree, by direct recursion: AND = all, OR = any,
+    implicit operation = the configured default, `NOT` / `-` = complement, `+`, groups transparent,
+    a field accumulates its name and, when `prefix ++ names[:k]` (longest first) is a declared nested
+    container `p`, means "at the nested path `p`"; boost / fuzzy / proximity are transparent on
+    compound operands and are part of the atom of a leaf-like operand (`leafItem`: the very `EItem`
+    the builder creates, so that atoms coincide); a Lucene-boolean operation (`.op .bool`): `+x`
+    required, `-x` / `NOT x` prohibited, the others optional but one of them required when nothing is
+    required.
+  * Atoms: `zero_terms_query` and `_name` do not take part in the meaning: an atom is a NORMALISED item
+    (`norm`: both attributes erased), and `atom : Obj → EItem → Bool` is an ARBITRARY truth assignment
+    of the normalised items (`build_meaning_E`). On the JSON side, `truth : Obj → JVal → Bool` has to
+    be insensitive to the two attributes (`Insens cfg truth`), and `atom o i := truth o (i.json cfg)`
+    (`build_meaning`).
+
+  HYPOTHESES.
+  * `SupportedSem cfg t` (decidable): the constructs of C07 (`Supported`), and every operand of a
+    Lucene-boolean operation is `+x`, `-x`, `NOT x`, or an expression whose core (below groups,
+    fields, boosts, fuzzy / proximity) is neither a conjunction (`AND`, must-like implicit
+    operation) nor a unary operator, and is not directly a Lucene-boolean operation. This excludes the
+    known findings KF3 (`EBoolOperation.json` merges a grouped `AND` / `+` / `-` / `NOT` operand into
+    its own lists) and KF4 (`simplify_if_same` flattens a boolean operation inside a boolean
+    operation): NEGATIVE witnesses at the end of the file.
+  * `cfgPlain cfg`: no field option asks for a "match type" called `bool` or `nested` (otherwise a
+    leaf clause could not be told from a compound clause on the JSON).
+  * `DocWF cfg doc` — only needed for skip-nesting (`atPath_skip`), see `skip_needs_wf`.
+
+  THEOREMS. `evalJ_json` (1): meaning of the JSON = meaning of the E-tree. `build_meaning_E`,
+  `build_meaning` (2)+(3): main theorem; `build_meaning_flat`: its boolean part (documents without
+  nested objects: no hypothesis on the document). Lemmas: `denote_flatten` (flattening same-kind
+  operands preserves the meaning), `excludeNested_noop` (`_exclude_nested_children` finds nothing to
+  exclude in the builder's own E-trees; in general it does NOT preserve the meaning, see
+  `excludeNested_not_sound`), `atPath_skip` (skip-nesting), negation: `denote` of `NOT NOT a` is
+  `denote a` by definition, and the main theorem covers it (`dneg` below).
+-/
+import Luqum.Lemmas.EsSemMain
+
 namespace Luqum.Props.C05
-open Luqum
+open Luqum Luqum.Lemmas.Es
+
+export Luqum.Lemmas.Es (Obj atPath properPrefix DocWF norm evalE evalAll evalAny evalJ Insens
+  nestedCand leafItem denote denoteAll denoteAny reqAll prohAny optAny hasReq hasOpt core mergedCore
+  boolOperandOK SupportedSem SupportedSemL cfgPlain)
+
+/-! ### (1) the JSON means what the E-tree means -/
+
+/-- meaning of `e.json cfg` = meaning of `e`, for E-trees whose items have one of the builder's
+methods (all the builder's E-trees: `visitS_okItems`) -/
+theorem evalJ_json (c : EsCfg) (truth : Obj → JVal → Bool) (hc : cfgPlain c = true) (hI : Insens c truth)
+    (e : ETree) (o : Obj) (he : allItems okItem e = true) :
+    evalJ truth (e.json c) o = evalE (fun o i => truth o (i.json c)) e o :=
+  Lemmas.Es.evalJ_json c truth hc hI e o he
+
+/-! ### (2), (3) the main theorem -/
+
+/-- **C05 on the E-tree**: the E-tree of a supported query means the query, for EVERY truth
+assignment `atom` of the normalised leaf clauses and every well-formed document -/
+theorem build_meaning_E (c : EsCfg) (atom : Obj → EItem → Bool) (t : Tree) (e : ETree) (doc : Obj)
+    (hs : SupportedSem c t = true) (h : esVisit c {} t = .ok [e]) (hd : DocWF c doc = true) :
+    evalE atom e doc = denote c atom none none t doc :=
+  sem_build c atom t e doc hs (by rw [← esVisit_eq]; exact h) hd
+
+/-- **C05**: when the builder translates a supported query, the JSON it returns means the query: at
+every well-formed document, for every truth assignment of the leaf clauses that does not look at
+`_name` / `zero_terms_query` -/
+theorem build_meaning (c : EsCfg) (t : Tree) (j : JVal) (hc : cfgPlain c = true)
+    (hs : SupportedSem c t = true) (h : esBuild c t = .ok j)
+    (truth : Obj → JVal → Bool) (hI : Insens c truth) (doc : Obj) (hd : DocWF c doc = true) :
+    evalJ truth j doc = denote c (fun o i => truth o (i.json c)) none none t doc := by
+  rw [esBuild_eq] at h
+  unfold buildS at h
+  split at h
+  · cases h
+  · split at h
+    · cases h
+    · cases h
+    · rename_i e rest hv
+      cases h
+      obtain ⟨e', he'⟩ := visitS_single c t {} _ (supported_of_sem c t hs) hv
+      cases he'
+      have hok := visitS_okItems c t {} none _ hv
+      simp only [allItemsL, Bool.and_true] at hok
+      rw [Lemmas.Es.evalJ_json c truth hc hI e doc hok]
+      exact sem_build c _ t e doc hs hv hd
+
+/-- the boolean part: on a document without nested objects (no hypothesis on the document) -/
+theorem build_meaning_flat (c : EsCfg) (t : Tree) (j : JVal) (hc : cfgPlain c = true)
+    (hs : SupportedSem c t = true) (h : esBuild c t = .ok j)
+    (truth : Obj → JVal → Bool) (hI : Insens c truth) :
+    evalJ truth j (.mk [] []) = denote c (fun o i => truth o (i.json c)) none none t (.mk [] []) :=
+  build_meaning c t j hc hs h truth hI (.mk [] []) rfl
+
+/-- refused or equivalent: on supported queries (C07: refused exactly on misuse / mix) -/
+theorem reject_or_equivalent (c : EsCfg) (t : Tree) (hc : cfgPlain c = true) (hs : SupportedSem c t = true) :
+    (∃ e, esBuild c t = .error e) ∨
+    (∃ j, esBuild c t = .ok j ∧ ∀ truth, Insens c truth → ∀ doc, DocWF c doc = true →
+      evalJ truth j doc = denote c (fun o i => truth o (i.json c)) none none t doc) := by
+  cases h : esBuild c t with
+  | error e => exact .inl ⟨e, rfl⟩
+  | ok j => exact .inr ⟨j, rfl, fun truth hI doc hd => build_meaning c t j hc hs h truth hI doc hd⟩
+
+/-! ### the lemmas -/
+
+/-- flattening of same-kind operands preserves the meaning -/
+theorem denote_flatten (c : EsCfg) (atom : Obj → EItem → Bool) (an : Option Bool) (fp : Option (List Str))
+    (k : OpK) (hk : k ≠ .bool) (xs ys zs : List Tree) (l l' : Lay) (o : Obj) :
+    denote c atom an fp (.op k (xs ++ .op k ys l' :: zs) l) o =
+    denote c atom an fp (.op k (xs ++ ys ++ zs) l) o :=
+  Lemmas.Es.denote_flatten c atom an fp k hk xs ys zs l l' o
+
+/-- `_exclude_nested_children` changes nothing in the E-trees the builder wraps -/
+theorem excludeNested_noop (c : EsCfg) (x : EsCtx) (n : Str) (e : Tree) (l : Lay) (en : ETree) (p : Str)
+    (hx : CtxOK x) (h : esVisit c (fieldCtx c x n e l) e = .ok [en])
+    (hcand : nestedCand c x.fieldPrefix n = some p) : excludeNested p en = en :=
+  Lemmas.Es.excludeNested_noop c x n e l en p hx (by rw [← esVisit_eq]; exact h) hcand
+
+/-- inside the evaluation of `nested p`, a `nested p` is evaluated at the same object -/
+theorem atPath_idem (p : Str) (o : Obj) (f : Obj → Bool) (h : o.path = splitOnChar '.' p) :
+    atPath p o f = f o := atPath_self p o f h
+
+/-- skip-nesting: from an object above the declared container `p`, "some object at `p` has below it
+an object at the deeper path `p'` satisfying `g`" is "some object at `p'` satisfies `g`" -/
+theorem atPath_skip {decl : List (List Str)} (o : Obj) (p p' : Str) (g : Obj → Bool)
+    (hwf : o.wf decl = true)
+    (h1 : properPrefix o.path (splitOnChar '.' p) = true)
+    (h2 : properPrefix (splitOnChar '.' p) (splitOnChar '.' p') = true)
+    (hd : splitOnChar '.' p ∈ decl) :
+    atPath p o (fun o' => atPath p' o' g) = atPath p' o g :=
+  Lemmas.Es.atPath_skip o p p' g hwf h1 h2 hd
+
+/-! ### truth assignments that do not look at `_name` / `zero_terms_query` exist -/
+
+theorem clauseKey_norm (c : EsCfg) (i : EItem) : clauseKey ((norm i).json c) = clauseKey (i.json c) := by
+  have key : ∀ i : EItem, clauseKey (i.json c) =
+      if (i.kind == .word && i.q == some ['*']) = true then "exists".toList else i.method c := by
+    intro i
+    unfold EItem.json
+    extract_lets field nameKv
+    split
+    · rfl
+    · split <;> rfl
+  rw [key, key]; rfl
+
+/-- any truth assignment that only looks at the kind of clause (its key) is insensitive -/
+theorem insens_of_key (c : EsCfg) (f : Obj → Str → Bool) : Insens c (fun o j => f o (clauseKey j)) :=
+  fun o i => by simp only [clauseKey_norm]
+
+/-- (kept from the stub stage; referenced by earlier evidence files) -/
 theorem normalizeObject_none : normalizeObject .none = none := rfl
+
+/-! ### non-vacuity -/
+
+section Examples
+
+private def w (s : String) : Tree := .term .word s.toList {}
+
+/-- nested `author` (with `name`) and, inside it, nested `author.book` (with `title`) -/
+private def cfg : EsCfg :=
+  { nested := .dict [("author".toList, .dict [("name".toList, .none),
+                      ("book".toList, .list ["title".toList])])] }
+
+example : cfg.nestedPrefixes = ["author".toList, "author.book".toList] := by decide
+example : cfgPlain cfg = true := by decide
+
+/-- a document with two authors, the first with two books, the second with none -/
+private def doc0 : Obj :=
+  .mk [] [.mk ["author".toList] [.mk ["author".toList, "book".toList] [],
+                                 .mk ["author".toList, "book".toList] []],
+          .mk ["author".toList] []]
+
+example : DocWF cfg doc0 = true := by decide
+/-- a book directly below the root is not well-formed: `author` is a declared container -/
+example : DocWF cfg (.mk [] [.mk ["author".toList, "book".toList] []]) = false := by decide
+
+/-- `author:(name:a AND book.title:"b c"~2) (x OR NOT NOT y)^2 -(z~1) author.book.title:t` with
+the default operator OR, and a Lucene-boolean operation `+u v -f:w` in a group -/
+private def q0 : Tree :=
+  .op .unk [
+    .field "author".toList (.group .fieldGroup (.op .and [
+        .field "name".toList (w "a") {},
+        .field "book.title".toList (.approx .proximity (.term .phrase "\"b c\"".toList {}) {} {}) {}] {}) {}) {},
+    .boost (.group .group (.op .or [w "x", .unary .not (.unary .not (w "y") {}) {}] {}) {}) {} {},
+    .unary .prohibit (.group .group (.approx .fuzzy (w "z") {} {}) {}) {},
+    .field "author.book.title".toList (w "t") {},
+    .group .group (.op .bool [.unary .plus (w "u") {}, w "v",
+                              .unary .prohibit (.field "f".toList (w "w") {}) {}] {}) {}] {}
+
+example : SupportedSem cfg q0 = true := by decide
+example : (match esBuild cfg q0 with | .ok _ => true | _ => false) = true := by rw [esBuild_eq]; decide
+
+/-- a truth assignment that looks at the words of the clause: the object `o` "contains" the words of
+`ws o` -/
+private def queryOf : JVal → Option Str
+  | .obj [(_, .obj [(_, .obj kvs)])] =>
+    (match jget kvs "query".toList with
+     | some (.str q) => some q
+     | _ => match jget kvs "value".toList with
+       | some (.str q) => some q
+       | _ => none)
+  | _ => none
+private def truthW (ws : Obj → List Str) : Obj → JVal → Bool :=
+  fun o j => match queryOf j with | some q => (ws o).contains q | none => false
+
+/-- the first author has name `a`; her second book has title `b c`; nothing else is true -/
+private def ws0 : Obj → List Str := fun o =>
+  if o.path == ["author".toList] && o.kids.length == 2 then ["a".toList]
+  else if o.path == ["author".toList, "book".toList] then ["b c".toList]
+  else []
+
+/-- the two sides of the theorem, computed on this instance (here for a truth assignment that is
+not covered by `insens_of_key`; the theorem itself is instantiated below) -/
+example : (match buildS cfg q0 with | .ok j => some (evalJ (truthW ws0) j doc0) | _ => none) = some true := by
+  decide
+example : denote cfg (fun o i => truthW ws0 o (i.json cfg)) none none q0 doc0 = true := by decide
+
+/-- the main theorem instantiated: all hypotheses hold for `cfg`, `q0`, `doc0` and a key-based truth -/
+example (j : JVal) (h : esBuild cfg q0 = .ok j) (f : Obj → Str → Bool) :
+    evalJ (fun o j => f o (clauseKey j)) j doc0 =
+    denote cfg (fun o i => f o (clauseKey (i.json cfg))) none none q0 doc0 :=
+  build_meaning cfg q0 j (by decide) (by decide) h _ (insens_of_key cfg f) doc0 (by decide)
+
+/-- negation is never dropped: `NOT NOT a` means `a`, `NOT a` means its complement -/
+private def dneg : Tree := .unary .not (.unary .not (w "a") {}) {}
+example : (match buildS {} dneg with
+    | .ok j => some (evalJ (truthW fun _ => ["a".toList]) j (.mk [] []), evalJ (truthW fun _ => []) j (.mk [] []))
+    | _ => none) = some (true, false) := by decide
+example (atom : Obj → EItem → Bool) (o : Obj) :
+    denote {} atom none none dneg o = denote {} atom none none (w "a") o := by
+  simp [dneg, denote]
+
+/-! ### NEGATIVE witnesses: the excluded known findings -/
+
+private def flat : Obj := .mk [] []
+private def evalBuilt (c : EsCfg) (t : Tree) (ws : List Str) : Option Bool :=
+  match buildS c t with
+  | .ok j => some (evalJ (truthW fun _ => ws) j flat)
+  | _ => none
+private def evalTree (c : EsCfg) (t : Tree) (ws : List Str) : Bool :=
+  denote c (fun o i => truthW (fun _ => ws) o (i.json c)) none none t flat
+
+/-- KF3: `a (NOT b)` — the grouped negation is merged into `must_not` of the enclosing boolean
+operation: with `a` and `b` false the query is true (`NOT b` holds), the JSON is false -/
+private def kf3 : Tree := .op .bool [w "a", .group .group (.unary .not (w "b") {}) {}] {}
+example : SupportedSem {} kf3 = false ∧ Supported kf3 = true := by decide
+example : evalBuilt {} kf3 [] = some false ∧ evalTree {} kf3 [] = true := by decide
+
+/-- KF3 with a grouped conjunction: `a (b AND c)` with only `a` true -/
+private def kf3' : Tree := .op .bool [w "a", .group .group (.op .and [w "b", w "c"] {}) {}] {}
+example : SupportedSem {} kf3' = false ∧
+    evalBuilt {} kf3' ["a".toList] = some false ∧ evalTree {} kf3' ["a".toList] = true := by decide
+
+/-- KF4: a boolean operation directly inside a boolean operation is flattened: `a [+b c]` with only
+`a` true -/
+private def kf4 : Tree := .op .bool [w "a", .op .bool [.unary .plus (w "b") {}, w "c"] {}] {}
+example : SupportedSem {} kf4 = false ∧ Supported kf4 = true ∧
+    evalBuilt {} kf4 ["a".toList] = some false ∧ evalTree {} kf4 ["a".toList] = true := by decide
+/-- grouped, the inner boolean operation is kept: supported, and equivalent -/
+private def kf4g : Tree := .op .bool [w "a", .group .group (.op .bool [.unary .plus (w "b") {}, w "c"] {}) {}] {}
+example : SupportedSem {} kf4g = true ∧
+    evalBuilt {} kf4g ["a".toList] = some true ∧ evalTree {} kf4g ["a".toList] = true := by decide
+
+/-- `_exclude_nested_children` is NOT meaning-preserving on arbitrary E-trees: stripping a
+`nested p` around an `EMust` inside an `EBoolOperation` moves its clauses to `must`. (It never
+happens in the builder's own E-trees: `excludeNested_noop`.) -/
+private def itemOf (s : String) : EItem := { kind := .word, q := some s.toList, method0 := "match".toList }
+private def eBad : ETree :=
+  .op .boolOp [.item (itemOf "a"), .nested "p".toList (.op .must [.item (itemOf "b")]) none]
+private def atomW (ws : List Str) : Obj → EItem → Bool := fun _ i => ws.contains (i.q.getD [])
+theorem excludeNested_not_sound :
+    evalE (atomW ["a".toList]) eBad (.mk ["p".toList] []) = true ∧
+    evalE (atomW ["a".toList]) (excludeNested "p".toList eBad) (.mk ["p".toList] []) = false := by decide
+
+/-- skip-nesting needs well-formed documents: a book directly below the root is found by
+`nested author.book` but not through `nested author` -/
+theorem skip_needs_wf :
+    let bad : Obj := .mk [] [.mk ["author".toList, "book".toList] []]
+    atPath "author.book".toList bad (fun _ => true) = true ∧
+    atPath "author".toList bad (fun o' => atPath "author.book".toList o' (fun _ => true)) = false := by
+  decide
+
+end Examples
+
 end Luqum.Props.C05
